@@ -230,8 +230,9 @@ def r3(ck, F):
                 if p.end != "return":
                     continue
                 is_some = any(option_test(c) == (("field", ("arg", 1), "inner"), True) for c in p.conds)
-                if is_some != (tcs[0] in p.blocks):
-                    ok = False
+                tested = any(option_test(c)[0] == ("field", ("arg", 1), "inner") for c in p.conds)
+                if is_some != (tcs[0] in p.blocks) or not tested:
+                    ok = False      # (a path that returns without looking at `inner` -- "not while panicking" -- loses a close)
         if ok:
             ck.ok("C03.R3", "Drop for Span: try_close exactly when inner is Some", fn=ds.path)
         else:
